@@ -54,3 +54,16 @@ class Unrelated(metaclass=StableHashMeta):
 
     name: str = field(default="", metadata={"type": "Element"})
     only_here: Optional[str] = field(default=None, metadata={"type": "Element"})
+
+
+@dataclass
+class Kennel(metaclass=StableHashMeta):
+    """Same element names as Zoo, but typed with the derived class: no xsi:type is needed here."""
+
+    class Meta:
+        name = "kennel"
+        namespace = "urn:x"
+
+    star: Optional[Dog] = field(default=None, metadata={"type": "Element"})
+    animal: list[Dog] = field(default_factory=list, metadata={"type": "Element"})
+    thing: Optional[Cat] = field(default=None, metadata={"type": "Element"})
